@@ -432,6 +432,9 @@ def same_seed_probe():
 
 
 def replay(prop, obj):
+    if obj.get('probe') == 'lingering':
+        import run_sched_sql
+        return run_sched_sql.replay(obj)
     if obj.get('probe') in ('same-seed', 'same-key'):
         v, e = same_seed_probe() if obj['probe'] == 'same-seed' else same_key_probe()
         if e: raise NoVerdict(e[0])
